@@ -37,7 +37,7 @@ Lemma struct_shapes :
                                                     CRef 56; CLabel "name" (CRef 45); CRef 55;
                                                     CLabel "def" (COpt (CSeq [CLit [61]; CRef 56; CRef 30]));
                                                     CRef 56; anns_opt; COpt (CRef 46)]))
-  /\ nth_error rules 16 = Some (CAct AFieldModifier1 (CChoice [CLit lit_required; CLit lit_optional]))
+  /\ nth_error rules 16 = Some (CAct AFieldModifier1 (CSeq [CChoice [CLit lit_required; CLit lit_optional]; kw_guard]))
   /\ nth_error rules 25 = Some (CAct AContainerType1 (CLabel "typ" (CChoice [CRef 26; CRef 27; CRef 28])))
   /\ nth_error rules 26 = Some (CAct AMapType1 (CSeq [COpt (CRef 29); CLit lit_map; CRef 57; CLabel "key" (CRef 22);
                                                       CRef 57; CLit [44]; CRef 57; CLabel "value" (CRef 22);
@@ -168,7 +168,8 @@ Proof.
   eapply E_ref; [exact H23|]. apply E_act_fail. apply E_seq.
   assert (Hname : evals (CLabel "name" (CRef 24)) 23 (st_of (l ++ s) o es) []
                         (Done false VNil (st_of (l ++ s) o es) [])).
-  { apply E_label_fail with (fr1 := []). eapply E_ref; [exact H24|]. apply E_act_fail. apply E_choice. exact Hc. }
+  { apply E_label_fail with (fr1 := []). eapply E_ref; [exact H24|]. apply E_act_fail. apply E_seq.
+    exact (S_fail 24 _ _ _ _ _ _ _ _ _ (E_choice _ _ _ _ _ Hc)). }
   exact (S_fail 23 _ _ _ _ _ _ _ _ _ Hname).
 Qed.
 
@@ -223,9 +224,26 @@ Proof.
   apply S_nil.
 Qed.
 
+(** a base-type keyword must end where it ends: what follows the type's own blanks cannot continue a
+    word (since the repair of C10-F8a; before it  i32x  was read as  i32  followed by  x) *)
+Definition ty_sep (t : ty_spec) (more : bytes) : Prop :=
+  match t with T_base _ g => stops p_cont (g ++ more) | _ => True end.
+(** sufficient: the keyword is followed by at least one blank *)
+Definition ty_tight (t : ty_spec) : Prop := match t with T_base _ g => g <> [] | _ => True end.
+
+Lemma ty_tight_sep : forall t more, ty_ok t -> ty_tight t -> ty_sep t more.
+Proof. intros [b g|? ? ?|? ? ?|? ? ? ? ?] more Hok Ht; cbn in *; try exact I. exact (blanks_stop g more (proj2 Hok) Ht). Qed.
+
+Lemma ty_sep_punct : forall t d x, ty_ok t -> ascii d -> p_cont d = false -> ty_sep t (d :: x).
+Proof.
+  intros [b g|? ? ?|? ? ?|? ? ? ? ?] d x Hok Hd Hp; cbn [ty_sep]; try exact I.
+  destruct Hok as [_ Hg]. destruct g as [|c g]; cbn [app]; [split; assumption|].
+  exact (blanks_stop (c :: g) (d :: x) Hg ltac:(discriminate)).
+Qed.
+
 (** what FieldType (22) does on a rendered type *)
 Definition ft_spec (t : ty_spec) : Prop := forall more cr o es fr,
-  head_not [32; 9; 13; 47; 40] more ->
+  head_not [32; 9; 13; 47; 40] more -> ty_sep t more ->
   exists o', evals (CRef 22) cr (st_of (render_ty t more) o es) fr
                    (Done true (VType (ty_of t)) (st_of more o' es) fr).
 
@@ -244,7 +262,7 @@ Proof.
   destruct struct_shapes as (_ & _ & _ & _ & _ & _ & _ & _ & _ & _ & H28 & _).
   cbn [render_ty ty_of].
   destruct (IH (62 :: g ++ more) 28%nat (o + Z.of_nat (List.length lit_list) + Z.of_nat (List.length w1)) es []
-               (gt_follow _)) as [o1 Ht].
+               (gt_follow _) (ty_sep_punct t 62 _ Hokt ltac:(unfold ascii; lia) eq_refl)) as [o1 Ht].
   destruct (container_close 28 (st_of (lit_list ++ w1 ++ render_ty t (62 :: g ++ more)) o es) g more o1 es
               [("typ"%string, VType (ty_of t))] [VType (ty_of t); VList (bytes_vals w1); VBytes lit_list] Hg Hm)
     as [o2 Hclose].
@@ -268,7 +286,7 @@ Proof.
   destruct struct_shapes as (_ & _ & _ & _ & _ & _ & _ & _ & _ & H27 & _).
   cbn [render_ty ty_of].
   destruct (IH (62 :: g ++ more) 27%nat (o + Z.of_nat (List.length lit_set) + Z.of_nat (List.length w1)) es []
-               (gt_follow _)) as [o1 Ht].
+               (gt_follow _) (ty_sep_punct t 62 _ Hokt ltac:(unfold ascii; lia) eq_refl)) as [o1 Ht].
   destruct (container_close 27 (st_of (lit_set ++ w1 ++ render_ty t (62 :: g ++ more)) o es) g more o1 es
               [("typ"%string, VType (ty_of t))] [VType (ty_of t); VList (bytes_vals w1); VBytes lit_set; VNil] Hg Hm)
     as [o2 Hclose].
@@ -296,9 +314,9 @@ Proof.
   set (tailv := 62 :: g ++ more).
   set (tailk := 44 :: w2 ++ render_ty v tailv).
   destruct (IHk tailk 26%nat (o + Z.of_nat (List.length lit_map) + Z.of_nat (List.length w1)) es []
-                (comma_follow _)) as [o1 Hk].
+                (comma_follow _) (ty_sep_punct k 44 _ Hokk ltac:(unfold ascii; lia) eq_refl)) as [o1 Hk].
   destruct (IHv tailv 26%nat (o1 + Z.of_nat (@List.length Z []) + 1 + Z.of_nat (List.length w2)) es
-                [] (gt_follow _)) as [o2 Hv].
+                [] (gt_follow _) (ty_sep_punct v 62 _ Hokv ltac:(unfold ascii; lia) eq_refl)) as [o2 Hv].
   destruct (container_close 26 (st_of (lit_map ++ w1 ++ render_ty k tailk) o es) g more o2 es
               [("value"%string, VType (ty_of v)); ("key"%string, VType (ty_of k))]
               [VType (ty_of v); VList (bytes_vals w2); VBytes [44]; VList (bytes_vals []); VType (ty_of k);
@@ -323,8 +341,8 @@ Qed.
 (** ContainerType (25) and FieldType (22) on any rendered type *)
 Theorem field_type_rule : forall t, ty_ok t -> ft_spec t.
 Proof.
-  induction t as [b g|w1 t IH g|w1 t IH g|w1 k IHk w2 v IHv g]; intros Hok more cr o es fr Hm.
-  - destruct Hok as [Hb Hg]. eexists. cbn [render_ty ty_of]. exact (field_type_base b g more cr o es fr Hb Hg Hm).
+  induction t as [b g|w1 t IH g|w1 t IH g|w1 k IHk w2 v IHv g]; intros Hok more cr o es fr Hm Hsep.
+  - destruct Hok as [Hb Hg]. eexists. cbn [render_ty ty_of]. exact (field_type_base b g more cr o es fr Hb Hg Hm Hsep).
   - destruct Hok as (Hw1 & Hokt & Hg).
     destruct shapes as (_ & _ & _ & _ & H22 & _). destruct struct_shapes as (_ & _ & _ & _ & _ & _ & _ & H25 & _).
     destruct (list_type_rule w1 t g more 25 o es [] (IH Hokt) Hw1 Hokt Hg Hm) as [o' Hl].
@@ -402,7 +420,9 @@ Inductive fmod_spec := M_default | M_required (g : bytes) | M_optional (g : byte
 Definition render_mod (m : fmod_spec) (rst : bytes) : bytes :=
   match m with M_default => rst | M_required g => lit_required ++ g ++ rst | M_optional g => lit_optional ++ g ++ rst end.
 Definition mod_gap (m : fmod_spec) : bytes := match m with M_default => [] | M_required g | M_optional g => g end.
-Definition mod_ok (m : fmod_spec) : Prop := run_of p_blank (mod_gap m).
+(** the keyword is followed by at least one blank (since the repair of C10-F8b  optionalThing  is a type name) *)
+Definition mod_ok (m : fmod_spec) : Prop :=
+  run_of p_blank (mod_gap m) /\ match m with M_default => True | _ => mod_gap m <> [] end.
 Definition mod_of (m : fmod_spec) : Z :=
   match m with M_default => m_default | M_required _ => m_required | M_optional _ => m_optional end.
 Definition mod_val (m : fmod_spec) : val := match m with M_default => VNil | _ => VMod (mod_of m) end.
@@ -421,7 +441,7 @@ Lemma field_mod_rule : forall m rst cr o es fr,
   exists o', evals (CLabel "mod" (COpt (CRef 16))) cr (st_of (render_mod m rst) o es) fr
                    (Done true (mod_val m) (st_of (mod_gap m ++ rst) o' es) (("mod"%string, mod_val m) :: fr)).
 Proof.
-  intros m rst cr o es fr Hm Hr.
+  intros m rst cr o es fr [Hm Hmne] Hr.
   destruct struct_shapes as (_ & _ & _ & _ & _ & _ & H16 & _).
   assert (Hrn : ascii_next rst) by exact (head_not_ascii_next [] rst (ty_headed_head_not rst [] Hr (Forall_nil _))).
   assert (Hact : forall (l s : bytes) o1,
@@ -436,22 +456,30 @@ Proof.
   - exists o. apply E_label_ok with (fr1 := []). eapply E_opt.
     assert (H114 : head_not [114] rst) by (apply ty_headed_head_not; [exact Hr | not_ty_start]).
     assert (H111 : head_not [111] rst) by (apply ty_headed_head_not; [exact Hr | not_ty_start]).
-    eapply E_ref; [exact H16|]. apply E_act_fail. apply E_choice.
-    eapply C_next; [exact (lit_fails 114 [101; 113; 117; 105; 114; 101; 100] 16 rst o es [] ltac:(all_ascii) H114)|].
-    eapply C_next; [exact (lit_fails 111 [112; 116; 105; 111; 110; 97; 108] 16 rst o es [] ltac:(all_ascii) H111)|].
-    apply C_nil.
+    assert (Hch : evals (CChoice [CLit lit_required; CLit lit_optional]) 16 (st_of rst o es) []
+                        (Done false VNil (st_of rst o es) [])).
+    { apply E_choice.
+      eapply C_next; [exact (lit_fails 114 [101; 113; 117; 105; 114; 101; 100] 16 rst o es [] ltac:(all_ascii) H114)|].
+      eapply C_next; [exact (lit_fails 111 [112; 116; 105; 111; 110; 97; 108] 16 rst o es [] ltac:(all_ascii) H111)|].
+      apply C_nil. }
+    eapply E_ref; [exact H16|]. apply E_act_fail. apply E_seq.
+    exact (S_fail 16 _ _ _ _ _ _ _ _ _ Hch).
   - assert (Hn : ascii_next (g ++ rst)) by exact (run_app_ascii_next p_blank g rst Hm Hrn).
     eexists. apply E_label_ok with (fr1 := []). eapply E_opt.
     eapply E_ref; [exact H16|]. eapply E_act_ok.
-    + apply E_choice. eapply C_ok. exact (lit_here lit_required (g ++ rst) 16 o es [] ltac:(all_ascii) Hn).
+    + apply E_seq.
+      eapply S_ok; [apply E_choice; eapply C_ok; exact (lit_here lit_required (g ++ rst) 16 o es [] ltac:(all_ascii) Hn)|].
+      eapply S_ok; [exact (kw_guard_ok 16 (g ++ rst) _ es [] (blanks_stop g rst Hm Hmne))|]. apply S_nil.
     + rewrite Hact. reflexivity.
   - assert (Hn : ascii_next (g ++ rst)) by exact (run_app_ascii_next p_blank g rst Hm Hrn).
     eexists. apply E_label_ok with (fr1 := []). eapply E_opt.
     eapply E_ref; [exact H16|]. eapply E_act_ok.
-    + apply E_choice.
+    + apply E_seq. eapply S_ok.
+      { apply E_choice.
       eapply C_next; [refine (lit_fails 114 [101; 113; 117; 105; 114; 101; 100] 16 (lit_optional ++ g ++ rst) o es [] ltac:(all_ascii) _);
                       unfold lit_optional; cbn [app]; split; [unfold ascii; lia | repeat constructor; lia]|].
-      eapply C_ok. exact (lit_here lit_optional (g ++ rst) 16 o es [] ltac:(all_ascii) Hn).
+      eapply C_ok. exact (lit_here lit_optional (g ++ rst) 16 o es [] ltac:(all_ascii) Hn). }
+      eapply S_ok; [exact (kw_guard_ok 16 (g ++ rst) _ es [] (blanks_stop g rst Hm Hmne))|]. apply S_nil.
     + rewrite Hact. reflexivity.
 Qed.
 
@@ -493,7 +521,8 @@ Definition fd_tail_ok (tl : fd_tail) (more : bytes) : Prop :=
   | FT_sep W sep W' => run_of p_wsnl W /\ is_sep sep /\ run_of p_wsnl W'
   end.
 Definition fd_ok (f : fd_spec) (more : bytes) : Prop :=
-  int64 (fd_id f) /\ run_of p_blank (fd_g1 f) /\ run_of p_blank (fd_g2 f) /\ mod_ok (fd_mod f) /\ ty_ok (fd_ty f)
+  int64 (fd_id f) /\ run_of p_blank (fd_g1 f) /\ run_of p_blank (fd_g2 f) /\ mod_ok (fd_mod f)
+  /\ (ty_ok (fd_ty f) /\ ty_tight (fd_ty f))
   /\ ascii (fd_c f) /\ p_start (fd_c f) = true /\ run_of p_cont (fd_t f) /\ fd_tail_ok (fd_tl f) more.
 
 Definition def_opt : cexpr action := CLabel "def" (COpt (CSeq [CLit [61]; CRef 56; CRef 30])).
@@ -577,7 +606,7 @@ Lemma field_rule : forall f more cr o es fr,
     /\ evals (CRef 15) cr (st_of (render_fd f more) o es) fr
              (Done true (VField (field_of f)) (st_of (W' ++ more) o' es) fr).
 Proof.
-  intros [z g1 g2 m ty c t tl] more cr o es fr (Hz & Hg1 & Hg2 & Hmod & Hty & Hc & Hp & Ht & Htl) Hm.
+  intros [z g1 g2 m ty c t tl] more cr o es fr (Hz & Hg1 & Hg2 & Hmod & [Hty Htight] & Hc & Hp & Ht & Htl) Hm.
   unfold render_fd, field_of. cbn [fd_id fd_g1 fd_g2 fd_mod fd_ty fd_c fd_t fd_tl] in *.
   destruct struct_shapes as (_ & _ & _ & _ & _ & H15 & _).
   set (tailtxt := fd_tail_text tl more).
@@ -594,7 +623,8 @@ Proof.
   set (o1 := o + Z.of_nat (List.length (render_int z)) + Z.of_nat (List.length g1) + 1 + Z.of_nat (List.length g2)).
   destruct (field_mod_rule m typed 15 o1 es
               [("id"%string, VInt z); ("docstr"%string, VNil)] Hmod Htyped) as [o2 Hmodr].
-  destruct (field_type_rule ty Hty named 15%nat (o2 + Z.of_nat (List.length (mod_gap m))) es [] Hnamed) as [o3 Htyr].
+  destruct (field_type_rule ty Hty named 15%nat (o2 + Z.of_nat (List.length (mod_gap m))) es [] Hnamed
+              (ty_tight_sep ty named Hty Htight)) as [o3 Htyr].
   destruct (field_close tl more 15 (st_of (render_int z ++ g1 ++ 58 :: g2 ++ modded) o es)
               (o3 + Z.of_nat (@List.length Z []) + Z.of_nat (List.length (c :: t))) es
               [("name"%string, VIdent (c :: t)); ("typ"%string, VType (ty_of ty)); ("mod"%string, mod_val m);
@@ -614,7 +644,7 @@ Proof.
                   exact (run_app_ascii_next p_blank g2 modded Hg2 (head_not_ascii_next _ _ Hmodded))|].
     eapply S_ok; [exact (gap_inline g2 modded 15 _ es _ Hg2 Hmodded)|].
     eapply S_ok; [exact Hmodr|].
-    eapply S_ok; [refine (gap_inline (mod_gap m) typed 15 o2 es _ Hmod _);
+    eapply S_ok; [refine (gap_inline (mod_gap m) typed 15 o2 es _ (proj1 Hmod) _);
                   apply ty_headed_head_not; [exact Htyped | not_ty_start]|].
     eapply S_ok; [apply E_label_ok with (fr1 := []); exact Htyr|].
     eapply S_ok; [refine (gap_inline [] named 15 o3 es _ ltac:(constructor) _); sub_head Hnamed|].
@@ -636,7 +666,8 @@ Definition fd_tail_ok_l (tl : fd_tail) (last : bool) : Prop :=
   | other => fd_tail_ok other []
   end.
 Definition fd_ok_l (f : fd_spec) (last : bool) : Prop :=
-  int64 (fd_id f) /\ run_of p_blank (fd_g1 f) /\ run_of p_blank (fd_g2 f) /\ mod_ok (fd_mod f) /\ ty_ok (fd_ty f)
+  int64 (fd_id f) /\ run_of p_blank (fd_g1 f) /\ run_of p_blank (fd_g2 f) /\ mod_ok (fd_mod f)
+  /\ (ty_ok (fd_ty f) /\ ty_tight (fd_ty f))
   /\ ascii (fd_c f) /\ p_start (fd_c f) = true /\ run_of p_cont (fd_t f) /\ fd_tail_ok_l (fd_tl f) last.
 Fixpoint fds_ok (fs : list fd_spec) : Prop :=
   match fs with
